@@ -151,6 +151,16 @@ CLAIMS["C11"] = {
     "note": TB + "Diagnostic rendering (ariadne) keeps its own line table and is out of scope of the proved function.",
 }
 
+CLAIMS["C16"] = {
+    "technique": "Lean 4 proof (fixpoint / exact restoration of the built-in scalar bookkeeping, all schemas, all hash orders) + history correspondence",
+    "text": "Theorems for every well-formed type map and every iteration order of the hash set: re-running the end of validate_schema on its own output changes nothing "
+            "(revalidate_fixpoint); adding a reference to a pruned built-in scalar B to a validated schema restores exactly B and nothing else (restore_exact); after a pass "
+            "every referenced built-in scalar is defined; references are unchanged by the pass. The bookkeeping model (record_type_ref / all_used / retain / insert) is "
+            "hand-written and tied by correspondence on histories validate → into_inner → validate → add fields → validate over 2k/20k generated schemas (5.7k model cases). "
+            "PARTIAL: 're-validating a valid executable document succeeds and is equal' and full Schema equality are checked on the implementation only.",
+    "note": TB + "Only the built-in scalar part of validate_schema is modelled; the rest of validation is a function of the schema (no hidden state), which is argued, not proved.",
+}
+
 ALL = [f"C{i:02d}" for i in range(1, 34)]
 NOT_APPLICABLE = {p: "check not built yet in this session (planned, see DESIGN.md §9); not a claim that the technique cannot apply"
                   for p in ALL if p not in CLAIMS}
